@@ -377,7 +377,8 @@ def run_unit(unit, prop, tier, cfg, rundir, extra_defs=(), tag=""):
         for r in results:
             if r.get("description") == "assertion" and r.get("property", "").rsplit(".", 1)[0] in inj_fns:
                 r["description"] = "loop-contract obligation (invariant base/step, assigns or decreases) of a condition-less loop in " + r["property"].rsplit(".", 1)[0]
-        if n_inv and sum(1 for n in names if "loop_invariant_step" in n or "loop_step" in n) + anon < 1:
+        vanished = any(r.get("kind") == "vanished" for r in reports)   # a loop the contracts were written for no longer exists: nothing to close, the obligations decide
+        if n_inv and not vanished and sum(1 for n in names if "loop_invariant_step" in n or "loop_step" in n) + anon < 1:
             # dfcc names: <fn>.loop_invariant_step.N
             und = und or "loop contract silently dropped (no loop_invariant_step obligation)"
         if unit.get("enforce") and not unit.get("no_post") and not any(
